@@ -2223,7 +2223,7 @@ def run(c):
         lf0 = rng.choice([dt, dt * 3, 0.125])
         npart = rng.choice([1, 1, 1, 0])
         err = rng.chance(0.15)
-        sig = 1 if status in (-3, -4) else rng.choice([0, 0, 1])      # PAUSED / SCREENSHOT without SIGINT would wait for ever
+        sig = 1 if status in (-3, -4, -10) else rng.choice([0, 0, 1])      # PAUSED / SCREENSHOT (also reached from SINGLE_STEP) without SIGINT would wait for ever
         sim = rebound.Simulation()
         sim.integrator = rng.choice(["whfast", "leapfrog", "ias15", "bs", "none"])
         if npart:
